@@ -89,7 +89,7 @@ pub fn field_types(thorough: bool) -> Vec<FT> {
     v
 }
 
-const FIELD_NAMES: [&str; 8] = ["a", "user_name", "x2", "r#type", "camelCase", "B", "r#match", "the_last_one"];
+const FIELD_NAMES: [&str; 10] = ["a", "sha_1", "x2", "r#type", "camelCase", "block_0_size", "r#match", "the_last_one", "user_name", "B"];
 const DOCS: [&str; 3] = ["A doc line", "second: (with, punctuation) -> #", "trailing space "];
 
 /// The ways a doc comment can be attached to an item.  Returns the source text and the comments the
